@@ -283,7 +283,7 @@ func (b *Builder) call(x *ssa.Call) *Term {
 		for _, a := range cc.Args {
 			args = append(args, b.Term(a))
 		}
-		return &Term{Op: "invoke", Obj: cc.Method, Args: args, Pos: x.Pos()}
+		return Invoke(cc.Method, args, x.Pos())
 	}
 	for _, a := range cc.Args {
 		args = append(args, b.Term(a))
